@@ -2,6 +2,7 @@ package props
 
 import (
 	"fmt"
+	"reflect"
 	"strings"
 
 	"github.com/AdguardTeam/urlfilter"
@@ -47,7 +48,8 @@ func hostTexts(hs []*rules.HostRule) []string {
 func snapDNS(res *urlfilter.DNSResult, matched bool) string {
 	// the fields are read before any derived-result method runs, and again afterwards
 	fields := func() string {
-		return fmt.Sprintf("%q|%q|%q|%q", ruleText(res.NetworkRule), netTexts(res.NetworkRules), hostTexts(res.HostRulesV4), hostTexts(res.HostRulesV6))
+		// rule texts and the data the rewrite rules carry
+		return fmt.Sprintf("%q|%q|%q|%q|%q", ruleText(res.NetworkRule), netTexts(res.NetworkRules), hostTexts(res.HostRulesV4), hostTexts(res.HostRulesV6), rewriteValues(res.NetworkRules))
 	}
 	before := fields()
 	_, _ = res.DNSRewritesAll(), res.DNSRewrites()
@@ -56,9 +58,9 @@ func snapDNS(res *urlfilter.DNSResult, matched bool) string {
 	if after := fields(); after != before {
 		mutated = fmt.Sprintf(" %s(before=%s after=%s)", getterMutatedMarker, before, after)
 	}
-	return mutated + fmt.Sprintf("matched=%v basic=%q all=%q v4=%q v6=%q rewritesAll=%q rewrites=%q", matched, ruleText(res.NetworkRule),
+	return mutated + fmt.Sprintf("matched=%v basic=%q all=%q v4=%q v6=%q rewritesAll=%q rewrites=%q values=%q", matched, ruleText(res.NetworkRule),
 		sortedList(netTexts(res.NetworkRules)), sortedList(hostTexts(res.HostRulesV4)), sortedList(hostTexts(res.HostRulesV6)),
-		sortedList(netTexts(res.DNSRewritesAll())), sortedList(netTexts(res.DNSRewrites())))
+		sortedList(netTexts(res.DNSRewritesAll())), sortedList(netTexts(res.DNSRewrites())), sortedList(rewriteValues(res.DNSRewritesAll())))
 }
 
 // getterMutatedMarker appears in a snapshot when calling the derived-result
@@ -214,6 +216,24 @@ func genMixedLists(t *rapid.T, fileChance int) (lists []ListSpec, models []NetMo
 			lines = append(lines, fmt.Sprintf("/Uniq%dp[0-9]/$image", k), fmt.Sprintf("/Uniq%dp[0-9]/$script,match-case", k))
 		}
 	}
+	if chance(t, "domain-bucket-block", 2) {
+		// several short-pattern rules in the $domain buckets of a domain and of its sub-domain
+		// together with /a9 the domain's bucket gets 3, 5, 6 or 7 entries: never a full backing array.
+		// (No rule is filed under the top-level label of this domain.)
+		for i := pick(t, "domain-bucket-size", []int{2, 4, 5, 6, 4}); i > 0; i-- {
+			lines = append(lines, fmt.Sprintf("/a%d$domain=dbucket.net", i))
+		}
+		lines = append(lines, "/b1$domain=sub.dbucket.net", "/b2$domain=sub.dbucket.net|a.com", "/a9$domain=dbucket.net|sub.dbucket.net")
+	}
+	if chance(t, "cname-block", 2) {
+		// rewrites whose targets differ in letter case only, and an exception for one spelling
+		lines = append(lines, "||cn.example^$dnsrewrite=CDN.Example.net", "@@||cn.example^$dnsrewrite=cdn.example.net", "||cn.example^$dnsrewrite=Other.Example.NET",
+			"||cn2.example^$dnsrewrite=NOERROR;CNAME;Target.Example", "@@||cn2.example^$dnsrewrite=NOERROR;CNAME;target.example")
+	}
+	if chance(t, "referrer-page-block", 2) {
+		// document-level exceptions for single pages of one referrer host
+		lines = append(lines, "@@||page.example/checkout^$urlblock", "||ads.example^", "@@||page.example/cart^$genericblock", "||ads.example/x.js$domain=page.example")
+	}
 	if chance(t, "bucket-sharing-block", 2) {
 		// several rules in one shortcut bucket, and rules in other buckets that the same URLs reach later
 		for i := rapid.IntRange(3, 6).Draw(t, "bucket-size"); i > 0; i-- {
@@ -255,6 +275,49 @@ func genFieldToggleQueries(t *rapid.T) []Q {
 			q = Q{URL: "http://example.org/", Src: pick(t, "tsrc", []string{"http://a.com/", "http://b.net/", ""}), Typ: "script"}
 		}
 		out = append(out, q)
+	}
+	return out
+}
+
+// genBlockQueries returns questions aimed at the rule blocks of genMixedLists
+// (asked in the returned order).
+func genBlockQueries(t *rapid.T) []Q {
+	switch rapid.IntRange(0, 2).Draw(t, "block") {
+	case 0:
+		// first from the sub-domain (walks both buckets), then from the domain itself
+		u := pick(t, "dbu", []string{"http://x.com/a1/a2/a3/a4/a5/a6/a9/b1/b2", "http://x.com/a9/a6/a5/a4/a3/a2/a1", "http://x.com/a3", "http://x.com/a1/a2/a3/a4/a5/a6/a9/b1/b2"})
+		srcs := []string{"http://sub.dbucket.net/", "http://dbucket.net/", "http://x.sub.dbucket.net/p", "http://dbucket.net/q"}
+		if chance(t, "dbrev", 3) {
+			srcs = []string{"http://dbucket.net/", "http://sub.dbucket.net/", "http://dbucket.net/"}
+		}
+		var out []Q
+		for _, s := range srcs {
+			out = append(out, Q{URL: u, Src: s, Typ: "script"})
+		}
+		return out
+	case 1:
+		return []Q{{Host: true, Hostname: "cn.example"}, {Host: true, Hostname: "cn2.example", DNSType: "A"}, {Host: true, Hostname: "cn.example", DNSType: "AAAA"}}
+	}
+	var out []Q
+	for i := rapid.IntRange(2, 5).Draw(t, "npages"); i > 0; i-- {
+		out = append(out, Q{URL: "http://ads.example/x.js", Src: "http://page.example/" + pick(t, "page", []string{"checkout", "other", "cart", "", "checkout?step=2"}), Typ: "script"})
+	}
+	return out
+}
+
+// rewriteValues renders the parsed rewrite of every rule: the data the rules
+// carry, not only their texts.
+func rewriteValues(rs []*rules.NetworkRule) []string {
+	var out []string
+	for _, r := range rs {
+		if r.DNSRewrite == nil {
+			continue
+		}
+		v := any(r.DNSRewrite.Value)
+		if rv := reflect.ValueOf(v); rv.IsValid() && rv.Kind() == reflect.Pointer && !rv.IsNil() {
+			v = rv.Elem().Interface()
+		}
+		out = append(out, fmt.Sprintf("%s => rcode=%d type=%d cname=%q value=%+v", r.Text(), r.DNSRewrite.RCode, r.DNSRewrite.RRType, r.DNSRewrite.NewCNAME, v))
 	}
 	return out
 }
